@@ -47,13 +47,22 @@ fn cat(a: &[u8; 32], b: &[u8; 32]) -> [u8; 64] {
 }
 
 /// the root obtained by hashing the tagged combinator tree from scratch
+/// fail entropy with two different halves and no repeated byte
+fn entropy() -> [u8; 64] {
+    let mut e = [0u8; 64];
+    for (i, b) in e.iter_mut().enumerate() {
+        *b = (i as u8).wrapping_mul(37).wrapping_add(11);
+    }
+    e
+}
+
 fn reference(s: &Shape) -> [u8; 32] {
     let z = [0u8; 32];
     match s {
         Shape::Iden => iv_root("iden"),
         Shape::Unit => iv_root("unit"),
         Shape::Witness => iv_root("witness"),
-        Shape::Fail => tag("fail", &[7u8; 64]),
+        Shape::Fail => tag("fail", &entropy()),
         Shape::InjL(c) => tag("injl", &cat(&z, &reference(c))),
         Shape::InjR(c) => tag("injr", &cat(&z, &reference(c))),
         Shape::Take(c) => tag("take", &cat(&z, &reference(c))),
@@ -73,7 +82,7 @@ where
         Shape::Iden => T::iden(ctx),
         Shape::Unit => T::unit(ctx),
         Shape::Witness => T::witness(ctx, Some(Value::u8(0x5a))),
-        Shape::Fail => T::fail(ctx, FailEntropy::from_byte_array([7u8; 64])),
+        Shape::Fail => T::fail(ctx, FailEntropy::from_byte_array(entropy())),
         Shape::InjL(c) => T::injl(&build(ctx, c)?),
         Shape::InjR(c) => T::injr(&build(ctx, c)?),
         Shape::Take(c) => T::take(&build(ctx, c)?),
